@@ -83,6 +83,7 @@ def write_replay(pid, unit, f, r, witness=None):
         'verifier': 'verus', 'verifier_message': f['message'], 'generated_file': r.gen_path, 'generated_line': f['line'],
         'failing_text': f['text'], 'spans': f.get('spans'), 'verifier_output': f.get('rendered'),
         'checker_cmd': r.cmd,
+        'anchors_relaxed': getattr(r, 'relaxed', []),
         'witness': witness,
         'failing_input_found': witness is not None,
         'note': None if witness is not None else 'no-failing-input-found: Verus gives no counterexample; the failed obligation and the verifier output are recorded instead',
@@ -140,7 +141,14 @@ def run_property(pid, tier, seed):
     if violations:
         code = 1
         from . import witness as wit
-        for (u, f) in violations:
+        seen = set()
+        uniq = []
+        for (u, f) in sorted(violations, key=lambda x: (0 if x[1].get('label') else 1)):
+            if (u, f['obligation']) in seen:
+                continue
+            seen.add((u, f['obligation']))
+            uniq.append((u, f))
+        for (u, f) in uniq:
             w = None
             try:
                 w = wit.search(pid, u, f)
@@ -193,7 +201,7 @@ def write_evidence(pid, tier, seed, units, results, known, violations, undecided
             'repo_functions_in_unit': len(r.fns), 'repo_functions_with_explicit_contract': sum(1 for x in r.fns if x['contract']),
             'named_clauses': len(r.labels), 'rules_applied': r.rules, 'dropped_by_extraction': r.dropped,
             'opaque_types': r.opaque, 'items_sliced': r.items, 'sentinels_expected_failed': list(r.sentinels),
-            'slowest_queries': slow, 'notes': r.notes,
+            'slowest_queries': slow, 'notes': r.notes, 'anchors_relaxed': getattr(r, 'relaxed', []),
             'functions': [{'fn': x['key'], 'at': '%s:%d-%d' % (x['file'], x['lines'][0], x['lines'][1]), 'contract': x['contract']} for x in r.fns][:400],
             'bounded': getattr(r, 'bounded', []),
         }
